@@ -381,6 +381,11 @@ func (c *RootConfig) Initialize(ctx context.Context) error {
 			return fmt.Errorf("discovering sub packages of %s: %w", recursivePackageName, err)
 		}
 		parentPkgConfig := c.Packages[recursivePackageName]
+		for _, regex := range parentPkgConfig.Config.ExcludeSubpkgRegex {
+			if _, err := regexp.Compile(regex); err != nil {
+				return fmt.Errorf("evaluating `exclude-subpkg-regex` of %s: %w", recursivePackageName, err)
+			}
+		}
 		for _, subpkg := range subpkgs {
 			// Use the recursive package's own (already merged) config, so that
 			// exclude-subpkg-regex takes effect when written on the package
